@@ -83,6 +83,33 @@ Theorem C05_transform_is_compositional :
 Proof. split; [exact paths_leaf | split; [exact paths_iter | exact paths_class]]. Qed.
 Print Assumptions C05_transform_is_compositional.
 
+(* 5. ... and position-independently: what a tree reports below a position is what it reports at the root, prefixed with
+      that position.  Hence, at ANY depth, the paths of a failing sequence are, for each failing element in index order and
+      nothing else, [index] followed by the paths the element's own error reports (just [index] when that error is a leaf). *)
+Theorem C05_paths_are_prefix_compositional :
+  forall e p, paths e p = map (fun s => p ++ s) (paths e []).
+Proof. exact paths_prefix. Qed.
+Print Assumptions C05_paths_are_prefix_compositional.
+
+Theorem C05_sequence_paths_any_depth :
+  forall (E : env) (cfg : ccfg) (n : nat) (t : ty) (o : val) (l : list val) (e : errkind) (p : list step),
+    c_dv cfg = true -> is_any t = false -> iter_val E o = Ok l ->
+    (forall x, In x l -> structure E cfg n t x <> OutOfFuel) ->
+    structure E cfg (S n) (TList t) o = Err e ->
+    paths e p = flat_map (fun ne => match ne with
+                                    | (Some k, s) => map (fun q => p ++ SIdx k :: q) (paths s [])
+                                    | (None, _) => []
+                                    end) (errs_at (structure E cfg n t) l 0).
+Proof.
+  intros E cfg n t o l e p Hdv Ha Hi Hf H.
+  rewrite (C05_sequence_paths E cfg n t o l e p Hdv Ha Hi Hf H).
+  induction (errs_at (structure E cfg n t) l 0) as [|[[k|] s] r IH]; cbn [flat_map]; [reflexivity| |exact IH].
+  rewrite IH. f_equal. unfold child_paths. destruct (is_group s) eqn:Eg.
+  - rewrite paths_prefix. apply map_ext. intros q. now rewrite <- app_assoc.
+  - rewrite (paths_leaf s [] Eg). cbn [map]. reflexivity.
+Qed.
+Print Assumptions C05_sequence_paths_any_depth.
+
 (* non-vacuity: a list of two instances under forbid_extra_keys, three independent faults at depth
    (a bad leaf in a nested list, a missing required key, an extra key): exactly three paths, none for
    the valid siblings *)
